@@ -1,5 +1,5 @@
 import QuriVerif.Props.C01Pass
-import QuriVerif.Proof.PassSound4
+import QuriVerif.Proof.PassSound6
 import QuriVerif.Model.StdEnv
 /-
   C01, pipeline level: passes of the executable model `Model/C01.lean` other than `decompPass`, and
@@ -17,9 +17,12 @@ import QuriVerif.Model.StdEnv
                rotConv (nested pipeline of decomp passes), cliffApprox (never run by `runPass`:
                it is an approximation, deliberately not operator preserving, and returns an error);
                fuseCHC, cnotRzRzz (third round, two-list templates);
-    pending  : pauliDec, pauliRotDec (arbitrary number of targets; only small cases are kernel-checked,
-               the induction over the CNOT ladder is not done) – hypotheses of `runSeq_sound_partial4`;
-               gateSetConv is covered modulo these two.
+               pauliDec (fourth round: the multi-qubit Pauli gate IS the product of its factors, every
+               number of targets, `Proof/PauliSound`);
+               pauliRotDec (fifth round, `Proof/RotSound`: commutation of gates on disjoint wires, the
+               CNOT ladder, basis layer, the local matrix `(v+w)·1 − (v−w)·P`; every number of targets);
+    pending  : none.  `runSeq_sound` / `runPass_sound` cover every `Pass` constructor, including the nested
+               pipelines of `rotConv` and `gateSetConv`.
 -/
 namespace QV.Props.C01Pipeline
 open QV QV.C01 QV.MatSound QV.Props.Reflect QV.Props.C01Lift QV.Props.C01Pass
@@ -289,5 +292,129 @@ private theorem pipe3_len : pipe3Out.length = 13 := by decide +kernel
 
 example : CInv 3 pipe3Out ∧ OpEqvC 3 circ3 pipe3Out :=
   runSeq_sound_proved4 3 stdFuel pipe3 circ3 pipe3Out (by decide +kernel) circ3_inv pipe3_runs
+
+/-! ## fourth round: `pauliDec` -/
+
+/-- `PauliDecomposeTranspiler`: a multi-qubit Pauli gate (any number of targets) and the list of its
+    single-qubit factors have the same operator (factor exactly 1) -/
+theorem pauliDecPass_sound (n : ℕ) (c : List NGate) (hc : CInv n c) :
+    CInv n (pauliDecPass c) ∧ OpEqvC n c (pauliDecPass c) :=
+  pauliDecPass_ok zetaC_pow_eight n c hc
+
+/-- **Pipelines, unconditional** (`provedPass5`): every primitive pass except `pauliRotDec` -/
+theorem runSeq_sound_proved5 (n fuel : ℕ) (ps : List Pass) (c c' : List NGate)
+    (hf : ∀ p ∈ ps, p.fits n = true ∧ p.ladderGood stdEnv = true ∧ provedPass5 p = true)
+    (hc : CInv n c) (h : runSeq stdEnv fuel ps c = .ok c') : CInv n c' ∧ OpEqvC n c c' :=
+  MatSound.runSeq_sound_proved5 zetaC_pow_eight (rhoC_ne_zero φ64) rho64_pow two_ne_zero stdEnv
+    stdEnvOK4 n fuel ps c c' hf hc h
+
+/-- **Pipelines, general** – including `GateSetConversionTranspiler` – assuming soundness of
+    `pauliRotDec` only -/
+theorem runSeq_sound_partial5 (n : ℕ) (hpend : PrimOK zetaC (rhoC φ64) stdEnv n .pauliRotDec)
+    (fuel : ℕ) (ps : List Pass) (c c' : List NGate)
+    (hf : ∀ p ∈ ps, p.fits n = true ∧ p.ladderGood stdEnv = true)
+    (hc : CInv n c) (h : runSeq stdEnv fuel ps c = .ok c') : CInv n c' ∧ OpEqvC n c c' :=
+  MatSound.runSeq_sound_partial5 zetaC_pow_eight (rhoC_ne_zero φ64) rho64_pow two_ne_zero stdEnv
+    stdEnvOK4 n hpend fuel ps c c' hf hc h
+
+/-! ### non-vacuity, fourth round -/
+
+private def circ4 : List NGate :=
+  [{ kind := .H, targets := [1] },
+   { kind := .Pauli, targets := [3, 0, 2, 1], paulis := [2, 1, 3, 2] },
+   { kind := .CNOT, controls := [0], targets := [3] }]
+
+private theorem circ4_inv : CInv 4 circ4 := by decide +kernel
+
+example : pauliDecPass circ4 =
+    [{ kind := .H, targets := [1] }, { kind := .Y, targets := [3] }, { kind := .X, targets := [0] },
+     { kind := .Z, targets := [2] }, { kind := .Y, targets := [1] },
+     { kind := .CNOT, controls := [0], targets := [3] }] := by decide +kernel
+
+example : OpEqvC 4 circ4 (pauliDecPass circ4) := (pauliDecPass_sound 4 circ4 circ4_inv).2
+
+private def pipe4 : List Pass :=
+  [.pauliDec, .decomp ["Y2RYTranspiler", "X2RXTranspiler", "Z2RZTranspiler"], .fuseRot, .normalize 0]
+
+private def pipe4Out : List NGate :=
+  match runSeq stdEnv stdFuel pipe4 circ4 with
+  | .ok r => r
+  | .error _ => []
+
+private theorem pipe4_runs : runSeq stdEnv stdFuel pipe4 circ4 = .ok pipe4Out := by decide +kernel
+
+example : CInv 4 pipe4Out ∧ OpEqvC 4 circ4 pipe4Out :=
+  runSeq_sound_proved5 4 stdFuel pipe4 circ4 pipe4Out (by decide +kernel) circ4_inv pipe4_runs
+
+/-! ## fifth round: `pauliRotDec`; no pending pass is left -/
+
+/-- `PauliRotationDecomposeTranspiler`: `exp(−iθ/2·P)` = basis changes · CNOT ladder · RZ(θ) · ladder ·
+    inverse basis changes, for every number of targets and every Pauli string -/
+theorem pauliRotDecPass_sound (n : ℕ) (c : List NGate) (hc : CInv n c) :
+    CInv n (pauliRotDecPass c) ∧ OpEqvC n c (pauliRotDecPass c) :=
+  pauliRotDecPass_ok zetaC_pow_eight (rhoC_ne_zero φ64) rho64_pow two_ne_zero n c hc
+
+/-- **Pipelines, final form.**  In the standard environment (tables translated from the working tree),
+    EVERY pipeline that `runSeq` completes – every `Pass` constructor, including
+    `RotationConversionTranspiler` and `GateSetConversionTranspiler` with their nested pipelines – maps a
+    numeric circuit satisfying the invariant `CInv n` to one satisfying it, with the same complex operator
+    up to a non-zero factor.  Side conditions: `idInsert m` needs `m ≤ n` (`Pass.fits`), a `ladder` pass
+    must select certified ladders (`Pass.ladderGood`: everything but `U1qNormalizeWithRZTranspiler`, a
+    known finding).  `cliffApprox` (an approximation) is not executed by `runPass`. -/
+theorem runSeq_sound (n fuel : ℕ) (ps : List Pass) (c c' : List NGate)
+    (hf : ∀ p ∈ ps, p.fits n = true ∧ p.ladderGood stdEnv = true)
+    (hc : CInv n c) (h : runSeq stdEnv fuel ps c = .ok c') : CInv n c' ∧ OpEqvC n c c' :=
+  runSeq_sound6 zetaC_pow_eight (rhoC_ne_zero φ64) rho64_pow two_ne_zero stdEnv stdEnvOK4 n fuel
+    ps c c' hf hc h
+
+/-- the same for one pass -/
+theorem runPass_sound (n fuel : ℕ) (p : Pass) (c c' : List NGate)
+    (hf : p.fits n = true ∧ p.ladderGood stdEnv = true)
+    (hc : CInv n c) (h : runPass stdEnv fuel p c = .ok c') : CInv n c' ∧ OpEqvC n c c' :=
+  runPass_sound6 zetaC_pow_eight (rhoC_ne_zero φ64) rho64_pow two_ne_zero stdEnv stdEnvOK4 n fuel
+    p c c' hf hc h
+
+/-! ### non-vacuity, fifth round: `GateSetConversionTranspiler` end to end -/
+
+private def circ5 : List NGate :=
+  [{ kind := .PauliRotation, targets := [0, 2], paulis := [1, 2], params := [10] },
+   { kind := .Pauli, targets := [1, 0], paulis := [3, 2] },
+   { kind := .TOFFOLI, controls := [0, 1], targets := [2] },
+   { kind := .H, targets := [1] }]
+
+private theorem circ5_inv : CInv 3 circ5 := by decide +kernel
+
+/-- `exp(−iθ/2·X₀Y₂)`: H(0), RX(2, π/2), CNOT(2→0), RZ(0, θ), CNOT(2→0), H(0), RX(2, −π/2) -/
+example : pauliRotDecPass circ5 =
+    [{ kind := .H, targets := [0] }, { kind := .RX, targets := [2], params := [32] },
+     { kind := .CNOT, controls := [2], targets := [0] }, { kind := .RZ, targets := [0], params := [10] },
+     { kind := .CNOT, controls := [2], targets := [0] },
+     { kind := .H, targets := [0] }, { kind := .RX, targets := [2], params := [-32] },
+     { kind := .Pauli, targets := [1, 0], paulis := [3, 2] },
+     { kind := .TOFFOLI, controls := [0, 1], targets := [2] }, { kind := .H, targets := [1] }] := by
+  decide +kernel
+
+example : OpEqvC 3 circ5 (pauliRotDecPass circ5) := (pauliRotDecPass_sound 3 circ5 circ5_inv).2
+
+/-- conversion to the gate set {RX, RZ, CNOT} with validation, and to {H, S, T, CNOT, RZ} -/
+private def gsA : List Pass := [.gateSetConv [.RX, .RZ, .CNOT] true]
+private def gsB : List Pass := [.gateSetConv [.H, .S, .T, .CNOT, .RZ] false]
+
+private def outOf (ps : List Pass) : List NGate :=
+  match runSeq stdEnv stdFuel ps circ5 with
+  | .ok r => r
+  | .error _ => []
+
+private theorem gsA_runs : runSeq stdEnv stdFuel gsA circ5 = .ok (outOf gsA) := by decide +kernel
+private theorem gsB_runs : runSeq stdEnv stdFuel gsB circ5 = .ok (outOf gsB) := by decide +kernel
+private theorem gsA_len : (outOf gsA).length = 37 ∧ (outOf gsA).all (fun g =>
+    [Kind.RX, .RZ, .CNOT].contains g.kind) = true := by decide +kernel
+private theorem gsB_len : (outOf gsB).length = 39 := by decide +kernel
+
+example : CInv 3 (outOf gsA) ∧ OpEqvC 3 circ5 (outOf gsA) :=
+  runSeq_sound 3 stdFuel gsA circ5 _ (by decide +kernel) circ5_inv gsA_runs
+
+example : CInv 3 (outOf gsB) ∧ OpEqvC 3 circ5 (outOf gsB) :=
+  runSeq_sound 3 stdFuel gsB circ5 _ (by decide +kernel) circ5_inv gsB_runs
 
 end QV.Props.C01Pipeline
